@@ -89,6 +89,7 @@ type propRun struct {
 	bounded   []*Obligation
 	trustedOwn []string
 	explicit  []string
+	unprovedSchema []string // axiom schemas handed to a solver in this run that are not mechanised in lean/Schema.lean
 }
 
 // collect generates everything that belongs to one property.
@@ -274,6 +275,11 @@ func cmdCheck(prop, tier string, jobs int) int {
 		}
 	}
 	s.solver.SolveCanaries(pr.canaries, jobs)
+	{
+		schemaObs, unproved := s.schemaObligations(prop)
+		pr.obs = append(pr.obs, schemaObs...)
+		pr.unprovedSchema = unproved
+	}
 
 	violations := 0
 	exit := 0
@@ -396,7 +402,10 @@ func writeEvidence(s *Session, pr *propRun, tier string, seed, discharged, viola
 	trusted := []string{
 		"govc itself: the VC generator, its memory model and the SSA front end (golang.org/x/tools/go/ssa v0.29.0)",
 		"SMT solvers z3 4.8.12, z3 5.1.0, cvc5 1.0 (an 'unsat' answer from any one discharges)",
-		"axiom schemas of /verif/spec/prelude.vc (SCHEMA)",
+		"lean 4 kernel for the axiom schemas proved in /verif/lean/Schema.lean (obligations schema/*); the reading of each accumulator predicate as the inductive closure of its introduction axioms",
+	}
+	if len(pr.unprovedSchema) > 0 {
+		trusted = append(trusted, "axiom schemas of /verif/spec/prelude.vc used in this run and NOT mechanised (definitions of spec functions, introduction rules of accumulators, base axioms om-* of the ordered-map model, assumed facts about dependencies): "+strings.Join(pr.unprovedSchema, ", "))
 	}
 	var assumptions []string
 	for _, n := range sortedKeys(pr.usedCt) {
